@@ -77,6 +77,13 @@ func genCap(t *rapid.T, n int) int {
 	return rapid.SampledFrom([]int{0, 0, 1, 2, 3, 8, n}).Draw(t, "cap")
 }
 
+// genPrefill: how many elements already sit in the input buffer when the stage is created (mostly none).
+func genPrefill(t *rapid.T, sc *Scenario) {
+	if c := sc.Caps0(); c > 0 && len(sc.In) > 0 && len(sc.In[0]) > 0 && rapid.IntRange(0, 3).Draw(t, "prefilled") == 0 {
+		sc.Prefill = rapid.IntRange(1, min(c, len(sc.In[0]))).Draw(t, "prefill")
+	}
+}
+
 func genFunc(t *rapid.T, sc *Scenario) {
 	sc.F = rapid.IntRange(0, 3).Draw(t, "f")
 	sc.A = rapid.IntRange(0, 3).Draw(t, "a")
@@ -115,6 +122,7 @@ func genC05(t *rapid.T) *Scenario {
 	default:
 		sc.Mode = "pure"
 	}
+	genPrefill(t, sc)
 	sc.Script = genScript(t, 1, nPortsOf(sc.Stage, sc.Mode, sc.StdErr), false, false, 40)
 	return sc
 }
@@ -142,6 +150,7 @@ func genC07(t *rapid.T) *Scenario {
 		sc.Caps = []int{genCap(t, n)}
 		sc.Fail = rapid.SliceOfNDistinct(rapid.IntRange(0, 30), 0, 12, rapid.ID[int]).Draw(t, "fail")
 		sc.StdErr = rapid.IntRange(0, 4).Draw(t, "stderr") == 0
+		genPrefill(t, sc)
 		sc.Script = genScript(t, 1, nPortsOf(sc.Stage, sc.Mode, sc.StdErr), false, false, 40)
 	case "emit":
 		sc.Caps = []int{rapid.IntRange(0, 3).Draw(t, "cap")}
@@ -240,6 +249,9 @@ func genC06(t *rapid.T) *Scenario {
 			hi = 100
 		}
 		sc.Fail = rapid.SliceOfNDistinct(rapid.IntRange(0, hi), 0, 6, rapid.ID[int]).Draw(t, "fail")
+	}
+	if nIn == 1 {
+		genPrefill(t, sc)
 	}
 	np := nPortsOf(sc.Stage, sc.Mode, sc.StdErr)
 	// class first: where the cancel goes
@@ -466,6 +478,7 @@ func genC09(t *rapid.T) *Scenario {
 		sc.Fail = rapid.SliceOfNDistinct(rapid.IntRange(0, 20), 0, 8, rapid.ID[int]).Draw(t, "fail")
 		sc.StdErr = rapid.IntRange(0, 4).Draw(t, "stderr") == 0
 	}
+	genPrefill(t, sc)
 	np := nPortsOf(sc.Stage[5:], sc.Mode, sc.StdErr)
 	switch rapid.SampledFrom([]string{"random", "random", "no-cancel", "hold-one", "cancel-inflight"}).Draw(t, "class") {
 	case "random":
@@ -509,6 +522,10 @@ func genC10(t *rapid.T) *Scenario {
 	}
 	sc.In = [][]int{in}
 	sc.Caps = []int{rapid.IntRange(0, 3).Draw(t, "cap")}
+	if rapid.IntRange(0, 2).Draw(t, "bigcap") == 0 {
+		sc.Caps[0] = rapid.IntRange(4, 8).Draw(t, "cap8")
+	}
+	genPrefill(t, sc)
 	cancel := rapid.IntRange(0, 3).Draw(t, "cancel") == 0
 	sc.Script = genForkScript(t, 1, cancel, 40)
 	return sc
